@@ -67,6 +67,8 @@ def main(pid, kind):
             run.inconclusive.append('reference Poseidon disagrees with iden3 on sample points')
         # ---- the deciding queries
         tasks = [{'kind': kind, 'D': D, 'B': B, 'path': paths['%s_%d_%d' % (kind, D, B)], 'timeout': 2400 if run.thorough else 180} for D, B in szs]
+        for t_ in tasks:
+            t_['diff'] = (t_['D'], t_['B']) in ((3, 2), (8, 2), (4, 3))
         tasks.sort(key=lambda t: -t['D'] * t['B'])
         for task, res in pool_map(merkle.run_task, tasks):
             if isinstance(res, Exception):
